@@ -94,6 +94,8 @@ inductive AddrErr where
   | cbor (e : Err) | base58 | hex | missingHeader | invalidHeader | notByron
   deriving Repr, DecidableEq
 
+deriving instance DecidableEq for Except
+
 /-- `ByronAddress::from_bytes` (repaired): decode, then compare the checksum -/
 def fromBytes (bs : Bytes) : Except AddrErr ByronAddress :=
   match ByronAddress.dec bs with
